@@ -33,14 +33,18 @@ type SeqMon[T comparable] struct {
 	D     *Dom[T]
 }
 
-func newListMons[T comparable](c *core.Ctx, d *Dom[T]) []*SeqMon[T] {
-	al := arraylist.New[T]()
-	sl := singlylinkedlist.New[T]()
-	dl := doublylinkedlist.New[T]()
+func newListMons[T comparable](c *core.Ctx, d *Dom[T], init ...T) []*SeqMon[T] {
+	if len(init) > 0 {
+		c.Begin("lists", "New", init)
+	}
+	al := arraylist.New[T](init...)
+	sl := singlylinkedlist.New[T](init...)
+	dl := doublylinkedlist.New[T](init...)
+	cp := func() []T { return append([]T(nil), init...) }
 	return []*SeqMon[T]{
-		{c: c, Name: "ArrayList", L: al, D: d},
-		{c: c, Name: "SinglyLinkedList", L: sl, P: sl, D: d},
-		{c: c, Name: "DoublyLinkedList", L: dl, P: dl, D: d},
+		{c: c, Name: "ArrayList", L: al, D: d, Model: cp()},
+		{c: c, Name: "SinglyLinkedList", L: sl, P: sl, D: d, Model: cp()},
+		{c: c, Name: "DoublyLinkedList", L: dl, P: dl, D: d, Model: cp()},
 	}
 }
 
@@ -253,7 +257,14 @@ func genListOp[T comparable](r *core.R, d *Dom[T], n int, maxN int) listOp[T] {
 }
 
 func runListHistory[T comparable](c *core.Ctx, d *Dom[T], steps, maxN int) {
-	mons := newListMons(c, d)
+	var init []T
+	if c.R.Chance(1, 3) {
+		init = d.Vals(c.R, varCount(c.R)) // the variadic constructors
+	}
+	mons := newListMons(c, d, init...)
+	for _, m := range mons {
+		m.CheckAll(true)
+	}
 	for s := 0; s < steps; s++ {
 		op := genListOp(c.R, d, mons[0].n(), maxN)
 		for _, m := range mons {
